@@ -67,6 +67,32 @@ pub fn run(domain: &str, seed: u64, thorough: bool, rec: &mut Rec, out: &mut dyn
     }
 }
 
+/// The size ladder: 0..3, then 2^k - 1, 2^k, 2^k + 1 for every k from 4 up to the power of two below `max`
+/// (thorough: also 2^k +- 2 and 3 * 2^(k-1)). Every length-like quantity of a property's domain is walked
+/// along it once, so that a threshold anywhere in the code (a scratch buffer, a sanity limit, a counter
+/// width) has inputs on both sides of it.
+pub fn ladder(thorough: bool, max: usize) -> Vec<usize> {
+    // the ladder is the same for every seed: the extra seeds of the thorough tier leave it out
+    if std::env::var("HOOT_NO_LADDER").is_ok() { return vec![]; }
+    let mut v = vec![0usize, 1, 2, 3];
+    let mut p = 16usize;
+    while p <= max {
+        v.extend_from_slice(&[p - 1, p, p + 1]);
+        if thorough { v.extend_from_slice(&[p - 2, p + 2, p + p / 2]); }
+        p *= 2;
+    }
+    v.retain(|&x| x <= max + 1);
+    v.sort();
+    v.dedup();
+    v
+}
+
+/// The ladder for lengths that the Lean model accumulates byte by byte (field names and values: its scanner
+/// appends to a list, which is quadratic in the length): up to 16 KiB (quick) / 64 KiB (thorough).
+pub fn ladder_q(thorough: bool) -> Vec<usize> {
+    ladder(thorough, if thorough { 65536 } else { 16384 })
+}
+
 /// the header part of a `new` line
 pub fn hdrs(h: &[(&str, &[u8])]) -> String {
     let mut s = format!("{}", h.len());
